@@ -391,7 +391,7 @@ def nest_vectors(rng, outer, inner, side, n_diff=3, n_rand=2):
     return d + same[:n_rand], len(diff) + len(diff2)
 
 
-def gen_nest_classes(rng):
+def gen_nest_classes(rng, n_diff=3, n_rand=2):
     """for every ordered pair (outer, inner) of binary/comparison operators: the inner operator nested on the LEFT and on the
     RIGHT of the outer one (same operator included), operands = integers loaded from 8-bit ports, one expression selected per
     cycle by the port `s`; histories drive, for each expression, operand triples on which the two possible groupings differ.
@@ -406,7 +406,7 @@ def gen_nest_classes(rng):
                     if (side == 'R' and not _rhs_safe(outer, inner)) != unsafe:
                         continue
                     txt = f'(x {PY_BIN[outer]} (y {PY_BIN[inner]} z))' if side == 'R' else f'((x {PY_BIN[inner]} y) {PY_BIN[outer]} z)'
-                    vecs, nd = nest_vectors(rng.fork(('nv', outer, inner, side)), outer, inner, side)
+                    vecs, nd = nest_vectors(rng.fork(('nv', outer, inner, side)), outer, inner, side, n_diff, n_rand)
                     if vecs:
                         exprs.append(dict(txt=txt, vecs=vecs, outer=outer, inner=inner, side=side, n_diff=nd))
             if not exprs:
